@@ -106,6 +106,17 @@ def check_tree(U, d, rec: Rec, cfg):
                 if n >= 2 and i > 0:
                     rec.count("nontrivial")
                 compare(rec, a, b, exp, dict(case, origins_b=list(combo_b), deviates_at=p), "deviation")
+                if len(p) >= 2 and letter in BASE3:
+                    # non-initial state: the first tree is detached before the second is built, so that the two
+                    # distinct live roots may carry the same id (ids cover only the node and its direct children)
+                    a2 = build(U, d, A)
+                    a2.detach()
+                    B2 = dict(A)
+                    B2[p] = letter
+                    b2 = build(U, d, B2)
+                    rec.outcome(f"same-id-pair:{a2.id == b2.id}")
+                    compare(rec, a2, b2, exp, dict(case, origins_b=list(combo_b), deviates_at=p, route="built-after-detach"), "deviation-same-id")
+                    del a2, b2
         for other in (None, "x", 0, a.id, a.content_id, (a,), zoo.NO_ORIGIN):
             rec.count("evaluations")
             try:
